@@ -271,7 +271,8 @@ def verdict (blocked notShared : Bool) (reason : Option Reason) : Option Reason 
 
 /-- One iteration of the loop of `manage_shares_changed` (with the task it creates run to
 completion) on the (state, `abort_reason`) of an upload whose user is `blocked` / whose file is
-`notShared` right now. -/
+`notShared` right now. (The re-queue goes through `_requeue_if_listed`, which does nothing for an
+upload that was removed meanwhile; no op of this model removes an upload.) -/
 def reconcileSR (blocked notShared : Bool) (sr : St × Option Reason) : St × Option Reason :=
   if sr.1 ∈ skipStates then sr
   else
